@@ -1,7 +1,7 @@
 (* C15 -- hand-written model of the argument-normalisation layer spatialmath/base/argcheck.py:
    getvector (lines 231-339), isvector (368-415), getunit (418-448).
-   The model mirrors the code AS IT IS, branch by branch (including the `v and len(v) != dim` test
-   that lets the empty list through).  It is tied to /repo on every run by props/C15.py, which evaluates
+   The model mirrors the code AS IT IS, branch by branch (since fix 08cac29 the list branch tests
+   `dim is not None and len(v) != dim`; before it `v and ...` let the empty list through).  It is tied to /repo on every run by props/C15.py, which evaluates
    [enc_gv]/[enc_iv] below with vm_compute on a grid of argument forms x shapes x dim x out and compares
    with the real functions (T-tab correspondence).
 
@@ -54,7 +54,7 @@ Definition is_nil {A} (l : list A) : bool := match l with [] => true | _ => fals
 (* lines 296-315: list / tuple branch (a scalar has been wrapped into a one-element list at 293-294) *)
 Definition gv_seq (tuple : bool) (l : list E) (dim : option nat) (out : outspec) : res pyval :=
   if (match dim with
-      | Some d => negb (is_nil l) && negb (length l =? d)      (* dim is not None and v and len(v) != dim *)
+      | Some d => negb (length l =? d)                         (* dim is not None and len(v) != dim   (fix 08cac29) *)
       | None => false end)
   then Err ValueError
   else match out with
